@@ -47,7 +47,7 @@ func init() {
 				c07Pipeline(env)
 			}
 		},
-		RequiredEvents: []string{"gate_calls", "gate_refused_with_one_drop", "inbound_rejected_reason4", "race_calls", "race_b2_window_hits", "pipeline_cases", "pipelined_data_delivered"},
+		RequiredEvents: []string{"gate_calls", "gate_refused_with_one_drop", "inbound_rejected_reason4", "race_calls", "race_b2_window_hits", "pipeline_cases", "pipelined_data_delivered", "window_cases", "window_refused_with_one_drop"},
 		Exhaustive:     func(string) bool { return true },
 	})
 }
@@ -334,6 +334,137 @@ func c07Race(env *fw.Env) {
 			return
 		}
 		c07RaceOne(env, i)
+	}
+	// the write-boundary window against every way of LEAVING Selected (not only Deselect)
+	base := int64(1_000_000)
+	k := int64(0)
+	for rep := 0; rep < env.Pick(1, 10); rep++ {
+		for _, trig := range []string{"close", "peer-separate", "peer-deselect"} {
+			for _, shape := range c07Calls {
+				i := base + k
+				k++
+				if !env.Mine(k) || !env.Want(i) {
+					continue
+				}
+				if env.Stop() {
+					return
+				}
+				c07WindowOne(env, i, shape, trig, k%2 == 0)
+			}
+		}
+	}
+}
+
+// c07WindowOne parks ONE data send inside the write lock (existing after-write-lock seam), i.e. after it
+// passed the pre-send gate while Selected, then makes the connection leave Selected by the given
+// trigger, holds the supervisor's teardown back for a moment (vhook react.beforeTeardown) and lets the
+// send continue once the harness itself has observed State() != Selected. From that moment the send
+// is "a data-sending call while the connection is not Selected": nothing of it may reach the wire.
+func c07WindowOne(env *fw.Env, i int64, shape, trig string, active bool) {
+	cs := c07Case{Index: i, Situation: "write-boundary-window/" + trig, Active: active, Note: shape}
+	env.Begin(i, cs)
+	env.Eval(fw.HashStr("window", shape, trig, fmt.Sprint(active)), true)
+	env.Sample(cs)
+	rg, err := newRig(rigOpts{Active: active, T3: 500 * time.Millisecond, T7: 10 * time.Second})
+	if err != nil {
+		env.Discard()
+		return
+	}
+	var armed, parked, released atomic.Bool
+	var seen atomic.Int32 // State() the parked sender observed before it went on (+1), 0 = never parked
+	hsms.VerifSetConnHooks(rg.Core, func() {
+		if !armed.Load() || !parked.CompareAndSwap(false, true) {
+			return // writes of the select exchange, and every write after the first parked one, pass
+		}
+		waitFor(3*time.Second, func() bool { return rg.Conn.State() != hsms.SelectedState })
+		seen.Store(int32(rg.Conn.State()) + 1)
+		released.Store(true)
+	}, nil)
+	hsms.VerifSetHook("hsms.react.beforeTeardown", func(time.Duration) { time.Sleep(40 * time.Millisecond) })
+	defer hsms.VerifSetHook("hsms.react.beforeTeardown", nil)
+	pc, err := rg.Establish(func(c *peer.Conn, f peer.Frame) bool { return !f.IsData() })
+	if err != nil {
+		env.Discard()
+		_ = rg.Shutdown()
+		return
+	}
+	defer func() { pc.Close(); _ = rg.Shutdown() }()
+	mt := rg.Conn.Metrics()
+	drop0 := mt.DataMsgDropNotSelectedCount()
+	token := fmt.Sprintf("c07w-%d", i)
+	armed.Store(true)
+	done := make(chan error, 1)
+	go func() {
+		ctx, cancel := context.WithTimeout(context.Background(), 5*time.Second)
+		defer cancel()
+		done <- c07Call(rg.Conn, shape, token, 0x1234, uint32(0x72000000+i), ctx)
+	}()
+	if !waitFor(5*time.Second, func() bool { return parked.Load() }) {
+		env.Discard() // the call never reached the write lock (should not happen on a Selected link)
+		return
+	}
+	closeDone := make(chan struct{})
+	switch trig {
+	case "close":
+		go func() { _ = rg.Conn.Close(); close(closeDone) }()
+	case "peer-separate":
+		_ = pc.Send(peer.SeparateReq(0x1234, 0x5E9A0000))
+		close(closeDone)
+	case "peer-deselect":
+		_ = pc.Send(peer.DeselectReq(0x1234, 0xDE5E1EC7))
+		close(closeDone)
+	}
+	var callErr error
+	select {
+	case callErr = <-done:
+	case <-time.After(15 * time.Second):
+		env.Violate("window-call-hung", fmt.Sprintf("%s parked at the write boundary while the connection left Selected (%s) did not return within 15 s", shape, trig), cs)
+		return
+	}
+	<-closeDone
+	if seen.Load() == 0 || hsms.ConnState(seen.Load()-1) == hsms.SelectedState {
+		env.Discard() // the trigger did not take effect while the send was parked: premise not met
+		return
+	}
+	env.Event("window_cases", 1)
+	env.Event("window_"+trig, 1)
+	// everything the library wrote on this connection is in the peer's log once the connection is closed
+	// or (deselect) a barrier has been answered
+	if trig == "peer-deselect" {
+		if _, err := pc.Barrier(10 * time.Second); err != nil {
+			env.Violate("window-link-dropped", err.Error(), cs)
+			return
+		}
+		time.Sleep(10 * time.Millisecond)
+		_, _ = pc.Barrier(10 * time.Second)
+	} else {
+		pc.WaitClosed(10 * time.Second)
+	}
+	for _, ev := range pc.Log() {
+		if ev.Frame.IsData() && c06Token(ev.Frame) == token {
+			env.Violate("data-written-while-not-selected:"+trig, fmt.Sprintf("%s passed the pre-send gate while Selected, reached the write boundary after State() had become %v (%s) and its frame was still written: %v (call returned %v)",
+				shape, hsms.ConnState(seen.Load()-1), trig, ev.Frame, callErr), cs)
+			return
+		}
+	}
+	async := shape == "SendDataMessageAsync" || shape == "ReplyDataMessage" || shape == "ForwardDataMessageAsync"
+	if !async {
+		switch {
+		case callErr == nil:
+			env.Violate("window-call-succeeded:"+trig, fmt.Sprintf("%s returned nil although nothing of it reached the wire (state at the write boundary %v)", shape, hsms.ConnState(seen.Load()-1)), cs)
+		case errors.Is(callErr, hsms.ErrNotSelectedState):
+			if d := mt.DataMsgDropNotSelectedCount() - drop0; d != 1 {
+				env.Violate("window-drop-count:"+trig, fmt.Sprintf("%s was refused at the write boundary with ErrNotSelectedState but the drop counter moved by %d", shape, d), cs)
+			} else {
+				env.Event("window_refused_with_one_drop", 1)
+			}
+		case errors.Is(callErr, hsms.ErrConnClosed):
+			env.Event("window_conn_closed", 1)
+		default:
+			env.Violate("window-unexpected-error:"+trig, fmt.Sprintf("%s returned %v", shape, callErr), cs)
+		}
+	} else {
+		env.Event("window_async_frame_suppressed", 1)
 	}
 }
 
